@@ -1,4 +1,4 @@
-"""Per-property metadata copied into the evidence files."""
+"""Per-property metadata copied into the evidence files (functions encoded, bounds, outside)."""
 R1CS_FUNCS = [
     "r1cs::Prover::{new, commit, allocate, allocate_multiplier, multiply, constrain, specify_randomized_constraints, flattened_constraints, eval, create_randomized_constraints, prove_and_return_transcript}",
     "r1cs::Verifier::{new, commit, allocate, allocate_multiplier, multiply, constrain, specify_randomized_constraints, flattened_constraints, create_randomized_constraints, verification_scalars, verify_and_return_transcript}",
@@ -7,15 +7,48 @@ R1CS_FUNCS = [
     "util::{VecPoly3::{zero, special_inner_product, eval}, Poly6::eval, exp_iter}",
     "generators::{PedersenGens::{default, commit}, BulletproofGens::{new, share, increase_capacity}, BulletproofGensShare::{G, H}}",
     "transcript::TranscriptProtocol::* (real Merlin, real SHA-3/ChaCha, concrete bytes)",
-    "r1cs::linear_combination operators (Add, Sub, Mul, Neg, From)", "ark_ff::batch_inversion (generic, on the carrier)",
+    "r1cs::linear_combination operators (Add, Sub, Mul, Neg, From, FromIterator)", "ark_ff::batch_inversion (generic, on the carrier)",
 ]
-FUNCS = {"C01": R1CS_FUNCS, "C02": R1CS_FUNCS}
+VER_FUNCS = [f for f in R1CS_FUNCS if "Prover::" not in f and "InnerProductProof::{create" not in f] + ["inner_product_proof::InnerProductProof::verification_scalars"]
+IPP_FUNCS = ["inner_product_proof::InnerProductProof::{create, verification_scalars, verify}", "inner_product_proof::inner_product", "transcript::TranscriptProtocol::{innerproduct_domain_sep, append_point, validate_and_append_point, challenge_scalar}", "ark_ff::batch_inversion"]
+FUNCS = {
+    "C01": R1CS_FUNCS, "C02": R1CS_FUNCS, "C03": VER_FUNCS, "C04": R1CS_FUNCS, "C05": R1CS_FUNCS, "C06": R1CS_FUNCS + ["merlin 3.0.0 with operation log (vendored, hash output unchanged)"],
+    "C07": R1CS_FUNCS + ["r1cs::verifier::batch_verify"], "C09": R1CS_FUNCS + ["merlin::TranscriptRngBuilder (log)"], "C10": IPP_FUNCS,
+    "C13": ["generators::PedersenGens::{commit, default}", "r1cs::Prover::{new, commit}"],
+    "C15": ["r1cs::linear_combination::* (every operator impl, From, FromIterator by value and by reference)"] + R1CS_FUNCS,
+    "C16": R1CS_FUNCS, "C17": R1CS_FUNCS + ["r1cs::verifier::batch_verify"],
+    "C18": R1CS_FUNCS + ["r1cs::proof::R1CSProof::to_bytes", "symark/src/refimpl.rs (pinned reference prover / verifier / generator derivation)"],
+}
 BOUNDS = {
-    "C01": {"quick": "18 call skeletons (16 named + 2 seeded random), padded gates <= 4, commitments <= 2, <= 2 randomized closures, capacities in {pad, pad+1, 2*pad} rotated, shadow curve rotated over secq256k1/zorro/curve25519; all field values symbolic",
-            "thorough": "44 call skeletons (20 named + 24 seeded random), padded gates <= 8, x 3 capacity pairs x 3 shadow curves; all field values symbolic"},
-    "C02": {"quick": "15 (skeleton, error plan) cases, padded gates <= 4; error values symbolic (any value)", "thorough": "quick cases + every C01 skeleton with a symbolic error on every constraint and every gate wire, padded gates <= 8, 3 shadow curves"},
+    "C01": {"quick": "18 call skeletons (16 named + 2 seeded random), padded gates <= 4, commitments <= 2, <= 2 randomized closures, capacities {pad, pad+1, 2*pad} rotated, shadow curve rotated over secq256k1 / zorro / curve25519; all field values symbolic",
+            "thorough": "named + 24 seeded random skeletons, padded gates <= 16, x 3 capacity pairs x 3 shadow curves; all field values symbolic"},
+    "C02": {"quick": "15 (skeleton, error plan) cases, padded gates <= 4; error values symbolic (any value)", "thorough": "quick cases + every C01 thorough skeleton with a symbolic error on every constraint and every gate wire, 3 shadow curves"},
+    "C03": {"quick": "7 skeletons, padded gates <= 4, commitments <= 2; proof object arbitrary", "thorough": "19 skeletons incl. 10 seeded random, padded gates <= 8, 3 curves"},
+    "C04": {"quick": "29 (skeleton, field) cases: every field of a padded-2 one-phase proof, second-phase points and final scalars of a two-phase proof, 4 swaps", "thorough": "+ every field (11 points, 3 scalars, 4 round points, a, b) of a padded-4 two-phase proof, 3 curves"},
+    "C05": {"quick": "19 deviations on circuits with <= 2 commitments and <= 2 gates", "thorough": "+ 5 deviations on a padded-4 two-phase circuit with 3 commitments, 3 curves"},
+    "C06": {"quick": "C01 quick skeletons + identity commitment (19), honest run and verifier-on-arbitrary-proof", "thorough": "C01 thorough skeletons, 3 curves"},
+    "C07": {"quick": "9 batches, k <= 3, members honest / arbitrary, padded sizes 1..4, growth past a power of two in the randomized phase in either position", "thorough": "+ batches of 4 and 5, 3 curves"},
+    "C09": {"quick": "7 skeletons (0..3 gates, up to 3 commitments, second phase with 0, 2, 3 gates)", "thorough": "+ every symbolic-coefficient C01 thorough skeleton, 3 curves"},
+    "C10": {"quick": "k = 0..3 honest with symbolic factors, k = 0..4 arbitrary proof objects, unit / sparse / 0-1 variants, 2 degenerate cases", "thorough": "k = 0..5 honest (k = 6 with unit factors), k = 0..6 arbitrary; k = 7 of the property text only if listed in bounds_reached"},
+    "C13": {"quick": "no size bound (loop-free); symbolic v, r, k on default and arbitrary bases; 5 literal sets with 0, 1, -1, values above 2^64 and structured limb patterns; 3 curves", "thorough": "same"},
+    "C15": {"quick": "3 batches of 30 seeded trees (depth <= 3, <= 6 variables) + 16 pipeline circuits", "thorough": "12 batches of 60 trees + 80 pipeline circuits"},
+    "C16": {"quick": "Engine S: all call sequences with <= 3 first-phase and <= 2 second-phase calls (3276 sequences); Engine K: see kani section", "thorough": "Engine S: <= 5 first-phase and <= 2 second-phase calls"},
+    "C17": {"quick": "Engine S: 6 skeletons (0..3 gates, second-phase growth), capacities 0..pad+1 (grid) and {pad, pad+1, 2pad, 4pad} (independence); Engine K: see kani section", "thorough": "+ 3 skeletons up to 6 gates, 3 curves"},
+    "C18": {"quick": "5 skeletons x 3 curves (0, 1, 3 gates one-phase; 2+1 and 2+3 two-phase)", "thorough": "+ 4, 0+3, 7 gates"},
 }
 OUTSIDE = {
     "C01": "padded gate counts above the bound; the measure-zero set where a logged path-condition takes its other outcome (e.g. a nonce equal to 0); zero challenges (the code unwraps their inverses; probability 2^-255)",
     "C02": "as C01; the final step 'a non-zero polynomial in (y,z) of degree <= Q+n vanishes at a random point with probability <= (Q+n)/q' is the Schwartz-Zippel argument, not a solver verdict",
+    "C03": "the step from the identity to 'accepts exactly when' uses Schwartz-Zippel in r (degree 1) and C06 (r squeezed after every proof element); identity / round-count clauses are enumerated, not symbolic",
+    "C04": "bit-level clause (canonicity of ark-serialize encodings on the real curves); Schwartz-Zippel and the discrete-log reading for the final step",
+    "C05": "Schwartz-Zippel in the fresh challenges; 'non-zero' of an RNG draw holds except with probability 1/q",
+    "C06": "unambiguity of Merlin's own framing (dependency); collision resistance of the hash (modelled as an uninterpreted function)",
+    "C07": "batches above the bound; Schwartz-Zippel in the weights for the 'only if' direction",
+    "C09": "statistical hiding itself is a consequence of the opening identities + freshness, not a solver verdict; padded > 1: the final scalars a, b are not opened (they are covered by C10/C01)",
+    "C10": "k above the bound; zero challenges",
+    "C13": "value-dependent fast paths on scalar limbs other than the literal patterns tried (the concolic run follows the shadow's path)",
+    "C15": "trees beyond the seeded sample (the operator impls are loop-free per operator, every operator occurs)",
+    "C16": "Engine S part is concrete enumeration (exhaustive within the bound), not a solver verdict",
+    "C17": "Engine S grid is concrete enumeration; independence identity is per skeleton",
+    "C18": "byte-level fixtures of the reference revision (none exist); bit-for-bit generator digests (derivation is compared against the pinned algorithm instead)",
 }
